@@ -3,11 +3,12 @@
    Print Assumptions.  Statements over real angles use the instance CRealS (K = R*R, A = R).
    Tables regenerated from the source: Gen.GateTables (gate.py, circuit.py), Gen.CliffordTables. *)
 From Coq Require Import String ZArith NArith List Bool Reals.
-From Tangelo Require Import Num.KStruct Num.CReal Num.Cyc QSem.State QSem.StateLemmas QSem.CircuitLemmas QSem.Commute.
+From Tangelo Require Import Num.KStruct Num.CReal Num.Cyc QSem.State QSem.StateLemmas QSem.CircuitLemmas QSem.Commute
+     QSem.Relabel QSem.RelabelProofs.
 From Tangelo Require Import Linq.GateModel Linq.CircuitModel Linq.History Linq.CircuitProofs Linq.Interp
      Linq.InterpProofs Linq.PassLemmas Linq.Clifford Linq.CliffordProofs Linq.RealInst Linq.LinqZ Linq.Equiv Linq.SmallRot.
 From Tangelo Require Import Linq.ScanLemmas Linq.InterpFacts Linq.MergeProofs Linq.GateEqSound Linq.RedundantProofs
-     Linq.RedundantExact Linq.SimplifyProofs.
+     Linq.RedundantExact Linq.SimplifyProofs Linq.RelabelProofs.
 From Gen Require Import GateTables CliffordTables.
 Import ListNotations.
 Open Scope string_scope.
@@ -328,3 +329,238 @@ Example C09_passes_nonvacuous :
      = Some "RZ(1;N;3;F) H(0;N;_;F) CNOT(2;0;_;F) RZ(1;N;5;T)"
   /\ compare_circuits 4 ex_pass [G "RZ" [1%Z] None (PNum 8%Z) true; G "H" [0%Z] None PNone false; G "CNOT" [2%Z] (Some [0%Z]) PNone false] = "P".
 Proof. vm_compute. repeat split. Qed.
+
+(* ================================================================================================== *)
+(* Index operations: trim_qubits, reindex_qubits, split, stack.                                        *)
+(* "The action equals that of the original on the corresponding qubits" is stated in two forms, for a  *)
+(* renaming f of qubit indices with bit (pull y) q = bit y (f q):                                      *)
+(*   pull-back   den (rename f c) (psi o pull) = (den c psi) o pull                                    *)
+(*   frame       for EVERY state phi:  den (rename f c) phi y = den c (x |-> phi (emb x y)) (pull y)   *)
+(*               (emb x y: the bits of x placed on the qubits f q, all other bits taken from y), i.e.  *)
+(*               the renamed circuit does to the qubits f q what c does to q and nothing to the rest.  *)
+(* ================================================================================================== *)
+
+(* 16. Renaming qubits, abstract form: any f, any pull with the bit specification, f injective against
+       the qubits of the gates; every base gate, any number of controls. *)
+Theorem C09_rename_pullback :
+  forall (f pull : N -> N) (c : circuit RS) (psi : state RS),
+    (forall y q, N.testbit (pull y) q = N.testbit y (f q)) ->
+    Forall (fun g => forall r q, In q (State.gate_qubits RS g) -> f r = f q -> r = q) c ->
+    den RS (rename RS f c) (pullback RS pull psi) = pullback RS pull (den RS c psi).
+Proof. intros f pull c psi H. exact (den_rename RS f pull H c psi). Qed.
+Print Assumptions C09_rename_pullback.
+
+(* 17. The maps the code uses: a finite association list m with pairwise distinct keys and values
+       (relabel_ok) defines a total INJECTIVE map relabel_f m (keys to their values, every other index
+       above all values) with computable partial inverse, pull and emb meeting their bit specifications:
+       the hypotheses of 16 are satisfiable for every such m (no vacuity). *)
+Theorem C09_relabel_map_ok :
+  forall m, relabel_ok m ->
+    (forall r q, relabel_f m r = relabel_f m q -> r = q)
+    /\ (forall y q, relabel_inv m y = Some q <-> relabel_f m q = y)
+    /\ (forall y q, N.testbit (relabel_pull m y) q = N.testbit y (relabel_f m q))
+    /\ (forall x y0 r, N.testbit (relabel_emb m x y0) r
+                       = match relabel_inv m r with Some q => N.testbit x q | None => N.testbit y0 r end).
+Proof.
+  intros m H. split; [exact (relabel_f_inj m H)|]. split; [exact (relabel_inv_spec m H)|].
+  split; [exact (relabel_pull_spec m H) | exact (relabel_emb_spec m H)].
+Qed.
+Print Assumptions C09_relabel_map_ok.
+
+Theorem C09_relabel_pullback :
+  forall m (c : circuit RS) (psi : state RS), relabel_ok m ->
+    den RS (rename RS (relabel_f m) c) (pullback RS (relabel_pull m) psi)
+    = pullback RS (relabel_pull m) (den RS c psi).
+Proof. exact (relabel_pullback RS). Qed.
+Print Assumptions C09_relabel_pullback.
+
+Theorem C09_relabel_frame :
+  forall m (c : circuit RS) (phi : state RS) y, relabel_ok m ->
+    den RS (rename RS (relabel_f m) c) phi y
+    = den RS c (fun x => phi (relabel_emb m x y)) (relabel_pull m y).
+Proof. exact (relabel_frame RS). Qed.
+Print Assumptions C09_relabel_frame.
+
+(* 18. Parts acting on disjoint qubits: EVERY interleaving (relative orders kept) of c1 and c2 denotes
+       c1 then c2; k parts: every interleaving of pairwise qubit-disjoint parts denotes their composition
+       in the listed order. *)
+Theorem C09_interleaving_sound :
+  forall (c c1 c2 : circuit RS), interleave c c1 c2 -> cross RS c1 c2 ->
+    forall psi, den RS c psi = den RS (c1 ++ c2)%list psi.
+Proof. exact (interleave_den RS). Qed.
+Print Assumptions C09_interleaving_sound.
+
+Theorem C09_k_interleaving_sound :
+  forall (c : circuit RS) (parts : list (circuit RS)), kinterleave c parts -> pdisj RS parts ->
+    forall psi, den RS c psi = den RS (List.concat parts) psi.
+Proof. exact (kinterleave_den RS). Qed.
+Print Assumptions C09_k_interleaving_sound.
+
+(* 19. The index theorems are stated for circuits whose gates have non-negative indices and, for
+       reindex_qubits, whose _qubit_indices are distinct and non-negative.  Every circuit accepted by
+       the constructor satisfies this (and has every gate qubit in _qubit_indices). *)
+Theorem C09_built_circuits_wf :
+  forall T (gs : list (pgate R)) nq c, build R T gs nq = Ok c ->
+    Forall (fun g => gate_okb R g = true) (cgates R c)
+    /\ NoDup (cidx R c) /\ Forall (fun q => (0 <= q)%Z) (cidx R c) /\ covered R c.
+Proof. exact (build_wf R). Qed.
+Print Assumptions C09_built_circuits_wf.
+
+Theorem C09_valid_gates_nonneg :
+  forall (gs : list (pgate R)), Forall (fun g => gate_okb R g = true) gs -> nonneg_gates R gs.
+Proof. exact (okb_nonneg_gates R). Qed.
+Print Assumptions C09_valid_gates_nonneg.
+
+(* ... and so does every circuit returned by trim_qubits and by reindex_qubits with non-negative new
+   indices (split and stack return circuits made by the constructor), so the index theorems chain. *)
+Theorem C09_index_ops_keep_wf :
+  (forall (c c' : circ R), trim_qubits R c = Ok c' ->
+     nonneg_gates R (cgates R c') /\ NoDup (cidx R c') /\ Forall (fun q => (0 <= q)%Z) (cidx R c') /\ covered R c')
+  /\ (forall (c c' : circ R) new, reindex_qubits R c new = (c', Ok tt) -> Forall (fun q => (0 <= q)%Z) new ->
+     nonneg_gates R (cgates R c') /\ NoDup (cidx R c') /\ Forall (fun q => (0 <= q)%Z) (cidx R c') /\ covered R c').
+Proof. split; [exact (trim_wf R) | exact (reindex_wf R)]. Qed.
+Print Assumptions C09_index_ops_keep_wf.
+
+(* 20. trim_qubits (model of the method, every circuit, every real angle, any controls): the result is
+       the original with its used qubits, in increasing order, renamed to 0, 1, 2, ...; the renaming is
+       injective; pull-back and frame forms of "same action on the corresponding qubits". *)
+Theorem C09_trim_sound :
+  forall (c c' : circ R) C,
+    nonneg_gates R (cgates R c) -> trim_qubits R c = Ok c' -> rinterp_all (cgates R c) = Some C ->
+    let m := nmap (trim_map (cgates R c)) in
+    relabel_ok m
+    /\ rinterp_all (cgates R c') = Some (rename RS (relabel_f m) C)
+    /\ (forall psi, den RS (rename RS (relabel_f m) C) (pullback RS (relabel_pull m) psi)
+                    = pullback RS (relabel_pull m) (den RS C psi))
+    /\ (forall phi y, den RS (rename RS (relabel_f m) C) phi y
+                      = den RS C (fun x => phi (relabel_emb m x y)) (relabel_pull m y)).
+Proof. exact (trim_sound RS R (fun a => a)). Qed.
+Print Assumptions C09_trim_sound.
+
+(* 21. reindex_qubits: for EVERY list of new indices the model accepts, the result is the original
+       renamed by (sorted _qubit_indices |-> new indices).  The code does not check the new indices: when
+       they are pairwise distinct and non-negative the renaming is injective and the action on the
+       corresponding qubits is the original's; with a repeated index two qubits are merged and the
+       operation is not preserved (C09_reindex_needs_distinct below). *)
+Theorem C09_reindex_sound :
+  forall (c c' : circ R) (new : list Z) C,
+    nonneg_gates R (cgates R c) -> NoDup (cidx R c) -> Forall (fun q => (0 <= q)%Z) (cidx R c) ->
+    reindex_qubits R c new = (c', Ok tt) -> rinterp_all (cgates R c) = Some C ->
+    let m := nmap (combine (cidx R c) new) in
+    rinterp_all (cgates R c') = Some (rename RS (relabel_f m) C)
+    /\ (NoDup new -> Forall (fun q => (0 <= q)%Z) new ->
+        relabel_ok m
+        /\ (forall psi, den RS (rename RS (relabel_f m) C) (pullback RS (relabel_pull m) psi)
+                        = pullback RS (relabel_pull m) (den RS C psi))
+        /\ (forall phi y, den RS (rename RS (relabel_f m) C) phi y
+                          = den RS C (fun x => phi (relabel_emb m x y)) (relabel_pull m y))).
+Proof. exact (reindex_sound RS R (fun a => a)). Qed.
+Print Assumptions C09_reindex_sound.
+
+(* 22. get_entangled_indices (model): the sets returned are pairwise disjoint and every gate lies inside
+       one of them. *)
+Theorem C09_entangled_sets :
+  forall (gs : list (pgate R)),
+    pwd (entangled_indices R gs)
+    /\ forall g, In g gs -> covers (entangled_indices R gs) (GateModel.gate_qubits g).
+Proof. exact (entangled_spec R). Qed.
+Print Assumptions C09_entangled_sets.
+
+(* 23. split (model of the method, every interpretable circuit with non-negative indices): the gate list
+       is an order-preserving interleaving of the parts returned, gates of different parts act on
+       disjoint qubits, and the circuit denotes the composition of the parts; with trim_qubits=True each
+       returned circuit is its part renamed by the part's own (injective) trim map, to which 17/20 apply. *)
+Theorem C09_split_sound :
+  forall (c : circ R) (trim : bool) (cs : list (circ R)) C,
+    (forall g q, In g (cgates R c) -> In q (GateModel.gate_qubits g) -> (0 <= q)%Z) ->
+    split_c R gtables c trim = Ok cs -> rinterp_all (cgates R c) = Some C ->
+    exists Ps, kinterleave C Ps /\ pdisj RS Ps
+      /\ (forall psi, den RS C psi = den RS (List.concat Ps) psi)
+      /\ Forall2 (fun c' pP =>
+                    rinterp_all (cgates R c')
+                    = Some (if trim then rename RS (relabel_f (nmap (trim_map (fst pP)))) (snd pP) else snd pP)
+                    /\ (trim = true -> relabel_ok (nmap (trim_map (fst pP)))))
+                 cs (combine (split_parts (cgates R c)) Ps).
+Proof. exact (split_sound RS R (fun a => a) gtables). Qed.
+Print Assumptions C09_split_sound.
+
+(* 24. stack (model of the function): the result is the concatenation of the parts, part i being the
+       i-th circuit with its used qubits (sorted) renamed to off_i, off_i + 1, ...; the offsets are
+       non-negative, every such renaming is injective (second theorem), and the renamed parts act on
+       pairwise disjoint qubits (so each part keeps acting on its own block as the original does on its
+       qubits: 17, and the order between parts is immaterial: 18). *)
+Theorem C09_stack_sound :
+  forall (cs : list (circ R)) (r : circ R) (Cs : list (circuit RS)),
+    Forall (fun c => nonneg_gates R (cgates R c)) cs -> stack_c R gtables cs = Ok r ->
+    Forall2 (fun c C => rinterp_all (cgates R c) = Some C) cs Cs ->
+    exists offs, length offs = length cs /\ Forall (fun o => (0 <= o)%Z) offs
+      /\ rinterp_all (cgates R r) = Some (List.concat (stack_parts RS R offs cs Cs))
+      /\ pdisj RS (stack_parts RS R offs cs Cs).
+Proof. exact (stack_interp RS R (fun a => a) gtables). Qed.
+Print Assumptions C09_stack_sound.
+
+Theorem C09_stack_maps_injective :
+  forall (gs : list (pgate R)) (off : Z), (0 <= off)%Z -> nonneg_gates R gs -> relabel_ok (nmap (stack_map off gs)).
+Proof. exact (stack_map_ok R). Qed.
+Print Assumptions C09_stack_maps_injective.
+
+(* ---- witnesses for 16-24 (exact instance, regenerated tables) ---- *)
+(* a circuit with gaps and three unentangled groups {6}, {9,12}, {1,4}: every operation is accepted, the
+   hypotheses of the theorems hold, the results are the expected ones *)
+Definition ex_idx : list zgate :=
+  [G "H" [1%Z] None PNone false; G "CNOT" [4%Z] (Some [1%Z]) PNone false; G "RY" [9%Z] None (PNum 3%Z) false;
+   G "X" [6%Z] None PNone false; G "CRZ" [9%Z] (Some [12%Z]) (PNum 5%Z) true; G "RX" [1%Z] None (PNum 7%Z) false].
+Definition show_res (r : res zcirc) : string := match r with Ok c => show_gates (cgates Z c) | Err _ => "ERR" end.
+Definition show_ress (r : res (list zcirc)) : list string :=
+  match r with Ok cs => map (fun c => show_gates (cgates Z c)) cs | Err _ => ["ERR"] end.
+Definition reindexed (c : zcirc) (new : list Z) : res zcirc :=
+  match reindex_qubits Z c new with (c', Ok _) => Ok c' | (_, Err e) => Err e end.
+
+Example C09_index_ops_nonvacuous :
+  exists c, build Z gtables ex_idx None = Ok c
+    /\ forallb (gate_okb Z) ex_idx = true
+    /\ (match cy_interp_all ex_idx with Some _ => true | None => false end) = true
+    /\ cidx Z c = [1; 4; 6; 9; 12]%Z
+    /\ trim_map ex_idx = [(1, 0); (4, 1); (6, 2); (9, 3); (12, 4)]%Z
+    /\ relabel_okb (nmap (trim_map ex_idx)) = true
+    /\ show_res (trim_qubits Z c) = "H(0;N;_;F) CNOT(1;0;_;F) RY(3;N;3;F) X(2;N;_;F) CRZ(3;4;5;T) RX(0;N;7;F)"
+    /\ show_res (reindexed c [7; 0; 3; 2; 5]%Z) = "H(7;N;_;F) CNOT(0;7;_;F) RY(2;N;3;F) X(3;N;_;F) CRZ(2;5;5;T) RX(7;N;7;F)"
+    /\ entangled_indices Z ex_idx = [[6]; [9; 12]; [1; 4]]%Z
+    /\ show_ress (split_c Z gtables c false) = ["X(6;N;_;F)"; "RY(9;N;3;F) CRZ(9;12;5;T)"; "H(1;N;_;F) CNOT(4;1;_;F) RX(1;N;7;F)"]
+    /\ show_ress (split_c Z gtables c true) = ["X(0;N;_;F)"; "RY(0;N;3;F) CRZ(0;1;5;T)"; "H(0;N;_;F) CNOT(1;0;_;F) RX(0;N;7;F)"]
+    /\ show_res (do cs <- split_c Z gtables c true; stack_c Z gtables cs)
+       = "X(0;N;_;F) RY(1;N;3;F) CRZ(1;2;5;T) H(3;N;_;F) CNOT(4;3;_;F) RX(3;N;7;F)".
+Proof. eexists. split; [vm_compute; reflexivity|]. vm_compute. repeat split. Qed.
+
+(* a small instance (qubits 2, 5, 7; groups {7}, {2,5}): split-then-stack is the original with its qubits
+   renamed (2,5,7) -> (1,2,0) and the gates of different groups reordered; run exactly (Q(zeta_32)) from
+   |000> both give the same state.  (Only one column is compared here to keep the independent
+   checker coqchk, which has no VM, within its memory limit; full unitaries are compared by the oracle.) *)
+Definition ex_idx3 : list zgate :=
+  [G "H" [5%Z] None PNone false; G "CNOT" [2%Z] (Some [5%Z]) PNone false; G "RY" [7%Z] None (PNum 3%Z) false;
+   G "RX" [5%Z] None (PNum 7%Z) false].
+Definition same_from_zero (n : nat) (g1 g2 : list zgate) : bool :=
+  match cy_interp_all g1, cy_interp_all g2 with
+  | Some a, Some b => cyc_list_eqb (run0 CycS n a) (run0 CycS n b)
+  | _, _ => false
+  end.
+Example C09_split_stack_small :
+  exists c, build Z gtables ex_idx3 None = Ok c
+    /\ show_ress (split_c Z gtables c true) = ["RY(0;N;3;F)"; "H(1;N;_;F) CNOT(0;1;_;F) RX(1;N;7;F)"]
+    /\ show_res (do cs <- split_c Z gtables c true; stack_c Z gtables cs) = "RY(0;N;3;F) H(2;N;_;F) CNOT(1;2;_;F) RX(2;N;7;F)"
+    /\ show_res (reindexed c [1; 2; 0]%Z) = "H(2;N;_;F) CNOT(1;2;_;F) RY(0;N;3;F) RX(2;N;7;F)"
+    /\ same_from_zero 3 (match reindexed c [1; 2; 0]%Z with Ok c' => cgates Z c' | Err _ => [] end)
+                        (match (do cs <- split_c Z gtables c true; stack_c Z gtables cs) with Ok c' => cgates Z c' | Err _ => [] end) = true.
+Proof. eexists. split; [vm_compute; reflexivity|]. vm_compute. repeat split. Qed.
+
+(* reindex_qubits does not validate the new indices: a repeated index merges two qubits (here CNOT gets
+   target = control) and the operation changes — the hypothesis NoDup new of theorem 21 is necessary *)
+Example C09_reindex_needs_distinct :
+  exists c c', build Z gtables [G "H" [0%Z] None PNone false; G "CNOT" [1%Z] (Some [0%Z]) PNone false] None = Ok c
+    /\ reindex_qubits Z c [0; 0]%Z = (c', Ok tt)
+    /\ show_gates (cgates Z c') = "H(0;N;_;F) CNOT(0;0;_;F)"
+    /\ compare_circuits 2 (cgates Z c) (cgates Z c') = "N".
+Proof.
+  do 2 eexists. split; [vm_compute; reflexivity|]. split; [vm_compute; reflexivity|].
+  vm_compute. repeat split.
+Qed.
